@@ -55,7 +55,7 @@ type c11Op struct {
 	Amt    string `json:"amt,omitempty"`    // 0 | 1 | 1e18 | max | max+1
 	To     string `json:"to,omitempty"`     // transfer receiver: self | other
 	Act    string `json:"act,omitempty"`    // Delegate | Undelegate | Redelegate (signed variant; native env step)
-	Sig    string `json:"sig,omitempty"`    // valid | wrong-signer | other-delegator | chain+1 | tampered | relay | unsigned-self
+	Sig    string `json:"sig,omitempty"`    // valid | wrong-signer | other-delegator | other-delegator-caller-signs | chain+1 | tampered | relay | unsigned-self
 }
 
 func (o c11Op) String() string {
@@ -396,6 +396,8 @@ func (cw *c11World) signedParts(op c11Op, e common.Address) (delegator common.Ad
 	case "other-delegator":
 		o := cw.other(e)
 		return o.Eth(), o, chain, false
+	case "other-delegator-caller-signs": // the message names somebody else's stake, the caller signs it with its own key
+		return cw.other(e).Eth(), cw.keyOf(e), chain, false
 	case "chain+1":
 		return e, cw.keyOf(e), new(big.Int).Add(chain, bigOne), false
 	case "tampered":
